@@ -69,6 +69,13 @@ Section Msg.
     dlet a <- spec_body fs [] in dlet b <- spec_tail es (map fnum fs) in Some (a ++ b).
 End Msg.
 
+(* the field a bit-or rewriter writes for the number x: a varint, or 4 / 8 little-endian bytes *)
+Definition bitor_spec_field (k : pbkind) (number : Z) (x : Z) : field :=
+  mkField number (kind_wire k)
+    (if kind_wire k =? proto_fixed32 then le_bytes 4 x
+     else if kind_wire k =? proto_fixed64 then le_bytes 8 x
+     else varint x).
+
 (* what a rewriter appends for the value v (None: an error) *)
 Fixpoint emit (fuel : nat) (r : rewriter) (v : bytes) {struct fuel} : option bytes :=
   match fuel with
@@ -95,8 +102,8 @@ Fixpoint emit (fuel : nat) (r : rewriter) (v : bytes) {struct fuel} : option byt
           | _ => None
           end
       | RwBitOr g k mask number =>
-          match bitor_unmarshal g v with
-          | ROk x => Some (enc_field (mkField number 0 (varint (bitor_value k (Z.lor x mask)))))
+          match bitor_decode k v with
+          | ROk u => Some (enc_field (bitor_spec_field k number (bitor_value k (Z.lor (bitor_in g k u) mask))))
           | _ => None
           end
       end
@@ -131,7 +138,7 @@ Inductive wf_rw : rewriter -> Prop :=
 
 (* the seen-set allocated for a MessageRewriter of length n, in bits *)
 Definition seen_bits (n : Z) : Z := 64 * (if n >=? 256 then makeFieldset_words (n + 1) else 4).
-(* every non-nil entry has a bit in the seen-set, at every level *)
+(* every non-nil entry has a bit in the seen-set, at every level (always true: fits_all_statement) *)
 Inductive fits : rewriter -> Prop :=
 | fits_raw : forall m, fits (RwRaw m)
 | fits_multi : forall rs, Forall fits rs -> fits (RwMulti rs)
@@ -185,6 +192,10 @@ Definition Parse_enc_statement : Prop :=
     Parse (enc_field f ++ r) = ROk (fnum f, fwt f, fval f, r).
 Definition Append_spec_statement : Prop :=
   forall m f, wf_field f = true -> Append m (fnum f) (fwt f) (fval f) = ROk (m ++ enc_field f).
+Definition bitor_field_statement : Prop :=
+  forall k number x, 0 <= number < 2 ^ 61 -> 0 <= x < 2 ^ 64 ->
+    bitor_field k number x = ROk (enc_field (bitor_spec_field k number x)) /\
+    wf_field (bitor_spec_field k number x) = true.
 Definition AppendVarint_spec_statement : Prop :=
   forall m number x, 0 <= number < 2 ^ 61 -> 0 <= x < 2 ^ 64 ->
     AppendVarint m number x = ROk (m ++ enc_field (mkField number 0 (varint x))) /\
@@ -229,22 +240,18 @@ Definition embed_splice_statement : Prop :=
    appended to out, or an error where the abstract rewrite has none; it never panics and never runs
    out of fuel. (A length prefix is written modulo 2^64: the outputs are equal below that size.) *)
 Definition rewrite_refines_statement : Prop :=
-  forall r out inp, wf_rw r -> fits r -> wfb inp = true -> len inp < 2 ^ 62 ->
+  forall r out inp, wf_rw r -> wfb inp = true -> len inp < 2 ^ 62 ->
     match spec_rewrite r inp with
     | Some o => exists o', Rewrite r out inp = ROk (out ++ o') /\ (len o < 2 ^ 64 \/ len o' < 2 ^ 64 -> o' = o)
     | None => exists e, Rewrite r out inp = RErr e
     end.
-(* full strength: no Go panic for any rewriter. False: the seen-set of a MessageRewriter longer than
-   256 entries is too small for most lengths *)
+(* no Go panic (no slice or seen-set index out of range) and termination, for every rewriter *)
 Definition rewrite_no_panic_statement : Prop :=
-  forall r out inp, wf_rw r -> wfb inp = true -> len inp < 2 ^ 62 -> Rewrite r out inp <> RPanic.
-Definition rewrite_no_panic_partial_statement : Prop :=
-  forall r out inp, wf_rw r -> fits r -> wfb inp = true -> len inp < 2 ^ 62 ->
+  forall r out inp, wf_rw r -> wfb inp = true -> len inp < 2 ^ 62 ->
     Rewrite r out inp <> RPanic /\ Rewrite r out inp <> RFuel.
-(* which lengths are safe: up to 256 entries always; beyond, exactly when the rounding happens to be right *)
-Definition seen_bits_statement : Prop :=
-  (forall n, 0 <= n <= 256 -> n <= seen_bits n) /\
-  (forall n, 256 < n -> (n <= seen_bits n <-> (n + 1) mod 64 = 0 \/ (n + 1) mod 64 = 1 \/ (n + 1) mod 64 = 63)).
+(* the seen-set has a bit for every index of the MessageRewriter, whatever its length *)
+Definition seen_bits_statement : Prop := forall n, 0 <= n -> n <= seen_bits n.
+Definition fits_all_statement : Prop := forall r, wf_rw r -> fits r.
 
 (* the output of a regular message rewriter on a valid message: it is a valid message (a); the
    fields with numbers the rewriter does not mention are those of the input, same values, same
@@ -267,7 +274,7 @@ Definition rewrite_output_statement : Prop :=
    for a valid message, that value is out followed by a valid message with the properties above *)
 Definition rewrite_message_statement : Prop :=
   forall n es out inp fs res,
-    wf_rw (RwMessage n es) -> fits (RwMessage n es) -> entries_ok es ->
+    wf_rw (RwMessage n es) -> entries_ok es ->
     wfb inp = true -> len inp < 2 ^ 62 -> fields_of inp = ROk fs ->
     Rewrite (RwMessage n es) out inp = ROk res -> len res < 2 ^ 62 ->
     exists o ofs,
@@ -294,26 +301,33 @@ Definition emit_kinds_statement : Prop :=
        | Some inner => Some (if len inner =? 0 then [] else enc_field (mkField number 2 inner))
        | None => None
        end) /\
-    (forall g k mask number x, bitor_unmarshal g v = ROk x ->
+    (forall g k mask number u, bitor_decode k v = ROk u ->
        emit (S fuel) (RwBitOr g k mask number) v =
-       Some (enc_field (mkField number 0 (varint (bitor_value k (Z.lor x mask)))))).
-(* the or-ed value read back with the codec of the field, for T matching the field's Go type *)
-Definition bitor_value_statement : Prop :=
-  forall x mask,
-    (0 <= x < 2 ^ 64 -> 0 <= mask < 2 ^ 64 -> bitor_value KUint64 (Z.lor x mask) = Z.lor x mask) /\
-    (0 <= x < 2 ^ 32 -> 0 <= mask < 2 ^ 32 -> bitor_value KUint32 (Z.lor x mask) = Z.lor x mask) /\
-    (- 2 ^ 63 <= x < 2 ^ 63 -> - 2 ^ 63 <= mask < 2 ^ 63 -> s64 (bitor_value KInt64 (Z.lor x mask)) = Z.lor x mask) /\
-    (- 2 ^ 31 <= x < 2 ^ 31 -> - 2 ^ 31 <= mask < 2 ^ 31 -> s64 (bitor_value KInt32 (Z.lor x mask)) = Z.lor x mask).
-(* bitOrRW on a zig-zag field: the stored value is or-ed in its zig-zag form and zig-zagged again.
-   Full strength (the field's value is or-ed) is false. *)
-Definition bitor_zigzag_actual_statement : Prop :=
-  (* what the code computes instead: the zig-zag form of the stored value is or-ed *)
-  forall x mask, - 2 ^ 30 <= x < 2 ^ 30 -> - 2 ^ 31 <= mask < 2 ^ 31 ->
-    bitor_unmarshal GInt32 (varint (proto_encodeZigZag32 x)) = ROk (zigzag x) /\
-    proto_decodeZigZag32 (bitor_value KSint32 (Z.lor (zigzag x) mask)) = s32 (Z.lor (zigzag x) mask).
-Definition bitor_zigzag_statement : Prop :=
-  forall x mask, - 2 ^ 31 <= x < 2 ^ 31 -> - 2 ^ 31 <= mask < 2 ^ 31 ->
-    match bitor_unmarshal GInt32 (varint (proto_encodeZigZag32 x)) with
-    | ROk u => proto_decodeZigZag32 (bitor_value KSint32 (Z.lor u mask)) = Z.lor x mask
-    | _ => False
-    end.
+       Some (enc_field (bitor_spec_field k number (bitor_value k (Z.lor (bitor_in g k u) mask))))).
+(* bit-or: for T the Go type of the field, the number written is the field's encoding of value | mask,
+   where the input number is the field's encoding of value: plain, two's complement or zig-zag, for
+   every kind BitOrRewriter accepts *)
+Definition kind_go (k : pbkind) : gokind :=
+  match k with
+  | KInt32 | KSint32 | KSfix32 => GInt32
+  | KInt64 | KSint64 | KSfix64 => GInt64
+  | KUint32 | KFix32 => GUint32
+  | KUint64 | KFix64 => GUint64
+  end.
+Definition kind_range (k : pbkind) (x : Z) : Prop :=
+  match kind_go k with
+  | GInt32 => - 2 ^ 31 <= x < 2 ^ 31
+  | GInt64 | GInt => - 2 ^ 63 <= x < 2 ^ 63
+  | GUint32 => 0 <= x < 2 ^ 32
+  | GUint64 | GUint => 0 <= x < 2 ^ 64
+  end.
+Definition kind_enc (k : pbkind) (x : Z) : Z :=
+  match k with
+  | KInt32 | KInt64 => w64 x
+  | KSint32 | KSint64 | KSfix32 | KSfix64 => zigzag x
+  | KUint32 | KUint64 | KFix32 | KFix64 => x
+  end.
+Definition bitor_roundtrip_statement : Prop :=
+  forall k x mask, kind_range k x -> kind_range k mask ->
+    bitor_value k (Z.lor (bitor_in (kind_go k) k (kind_enc k x)) mask) = kind_enc k (Z.lor x mask) /\
+    kind_range k (Z.lor x mask).
